@@ -220,7 +220,10 @@ func derivedUnits() []engine.Unit {
 			x := col.Set[[]int](N()).MakeFromArray(deep(0))
 			y := col.Set[[]int](N()).Or(x, col.Set[[]int](N()).MakeFromArray(deep(1)))
 			return func() string { x.AddValue([]int{9}); return fmt.Sprint(x.AsArray()) },
-				func() string { y.RemoveValue([]int{1}); return fmt.Sprint(y.ContainsValue([]int{2, 2, 1}), y.AsArray()) }
+				func() string {
+					y.RemoveValue([]int{1})
+					return fmt.Sprint(y.ContainsValue([]int{2, 2, 1}), y.AsArray())
+				}
 		}},
 		{"List and the result of Concatenate with it", func() (func() string, func() string) {
 			x := col.List[[]int](N()).MakeFromArray(deep(0))
@@ -253,8 +256,16 @@ func derivedUnits() []engine.Unit {
 			z := col.Catalog[string, []int](N()).Make()
 			z.SetValue("c", []int{3})
 			y := col.Catalog[string, []int](N()).Merge(x, z)
-			return func() string { x.SetValue("a", []int{9}); x.SortValues(); return fmt.Sprint(x.GetKeys().AsArray(), x.GetValue("a")) },
-				func() string { y.SetValue("a", []int{8}); y.ReverseValues(); return fmt.Sprint(y.GetKeys().AsArray(), y.GetValue("a")) }
+			return func() string {
+					x.SetValue("a", []int{9})
+					x.SortValues()
+					return fmt.Sprint(x.GetKeys().AsArray(), x.GetValue("a"))
+				},
+				func() string {
+					y.SetValue("a", []int{8})
+					y.ReverseValues()
+					return fmt.Sprint(y.GetKeys().AsArray(), y.GetValue("a"))
+				}
 		}},
 		{"Stack and a Stack built from it", func() (func() string, func() string) {
 			x := col.Stack[[]int](N()).MakeFromArray(deep(0))
